@@ -19,7 +19,15 @@ def picture(signed, m, n, repeat=False):
 
 
 def clause(usage, pic_text):
-    return f"USAGE {SPELLINGS[usage]} PIC {pic_text}"
+    """the USAGE / PICTURE clauses in one of the spellings COBOL allows (chosen deterministically from the arguments):
+    PIC | PICTURE, optional IS after either keyword, optional word USAGE, either clause order"""
+    h = (usage * 7 + len(pic_text) * 3 + sum(map(ord, pic_text))) % 24
+    pic_kw = "PICTURE" if h % 2 else "PIC"
+    pic_is = " IS" if (h // 2) % 3 == 1 else ""
+    u = SPELLINGS[usage]
+    usage_txt = [f"USAGE {u}", f"USAGE IS {u}", u][(h // 6) % 3]
+    pic_txt = f"{pic_kw}{pic_is} {pic_text}"
+    return f"{usage_txt} {pic_txt}" if (h // 18) % 2 == 0 else f"{pic_txt} {usage_txt}"
 
 
 def canon(v):
@@ -66,11 +74,18 @@ def nav_obs(usage, pic_text, buffer):
         from stingray.cobol_parser import schema_iter
         from stingray.schema_instance import SchemaMaker, EBCDIC, BytesInstance
         # one clause per line: a line reaching column 72 would lose its newline (C07 finding)
-        text = ("       01  REC.\n"
+        # the record of interest is the SECOND 01 of the copybook; the first one declares the same data name with
+        # another picture (schema_iter keeps one generator/unpacker for all records of a copybook)
+        h = _count[0] % 12
+        pic_kw = ["PIC", "PICTURE", "PIC IS", "PICTURE IS"][h % 4]
+        usage_kw = ["USAGE", "USAGE IS", ""][h // 4]
+        text = ("       01  PREV.\n"
+                f"           05  {name} PIC X(7).\n"
+                "       01  REC.\n"
                 f"           05  {name}\n"
-                f"               PIC {pic_text}\n"
-                f"               USAGE {SPELLINGS[usage]}.\n")
-        (js,) = list(schema_iter(io.StringIO(text)))
+                f"               {pic_kw} {pic_text}\n"
+                f"               {usage_kw} {SPELLINGS[usage]}.\n")
+        (_prev, js) = list(schema_iter(io.StringIO(text)))
         schema = SchemaMaker.from_json(js)
         if "u" not in _SHARED:
             _SHARED["u"] = EBCDIC()
